@@ -5,6 +5,7 @@
 -/
 import HLV.Static.Rules
 import HLV.Static.OwnRules
+import HLV.Static.KillRules
 namespace HLV.Static
 open HLV.Gen
 
@@ -49,6 +50,8 @@ def report : List (String × String × List String × List String) :=
     ("C15", "Deref does not tie the reference to the guard borrow", c15_derefLifetimes.map nm, []),
     ("C15,C04,C13", "try path reaches a blocking operation", c04_tryReachesBlocking.map nm, []),
     ("C15,C17", "non-acquiring path reaches a blocking operation", c17_nonAcqReachesBlocking.map nm, []),
+    ("C12", "acquiring function of a leaf lock does not test the kill flag again after the raw acquisition (a lock killed while the thread waited, or while its try was in flight, still hands out a guard)", pr c12_killFlagProtocol, []),
+    ("C12", "raw operation of a leaf lock not wrapped in the recovery that stores the kill flag", pr c12_recovery, []),
     ("C16", "ownership-sensitive primitive (forget / leak / from_raw / drop_in_place / MaybeUninit / transmute …) in a function no ownership model covers", pr c16_unauditedSensitive, []),
     ("C16", "audited function no longer has an ownership record", pr c16_auditedMissing, []),
     ("C16", "BoxedLockCollection: call sequence not recognised, or not clean on the heap-cell model (double free / leak / use after free / payload dropped twice or never)", c16_boxedLife.map nm, []),
